@@ -9,7 +9,8 @@ def files():
     k = G.new_file("acme/lab/v1/kinds.proto", "acme.lab.v1")
     e = k.enum_type.add(name="Kind"); e.value.add(name="KIND_UNSPECIFIED", number=0); e.value.add(name="BIG", number=1)
     e2 = k.enum_type.add(name="OtherKind"); e2.value.add(name="OTHER_KIND_UNSPECIFIED", number=0)
-    fd = G.new_file("acme/lab/v1/lab.proto", "acme.lab.v1", deps=G.STD_DEPS + ["acme/lab/v1/kinds.proto"])
+    rs = G.new_file("acme/lab/v1/resources.proto", "acme.lab.v1")            # (kinds.proto stays an enum-only file)
+    fd = G.new_file("acme/lab/v1/lab.proto", "acme.lab.v1", deps=G.STD_DEPS + ["acme/lab/v1/kinds.proto", "acme/lab/v1/resources.proto"])
     for n in ("Color", "Unused"):
         en = fd.enum_type.add(name=n); en.value.add(name=n.upper() + "_UNSPECIFIED", number=0)
     M = ".acme.lab.v1."
@@ -21,8 +22,8 @@ def files():
     G.add_message(fd, "B", [G.F("cs", 1, T.TYPE_MESSAGE, label=G.REPEATED, type_name=M + "C"), G.F("res", 2, T.TYPE_STRING, resource_ref="lab.example.com/Res")])
     G.add_message(fd, "C", [G.F("a", 1, T.TYPE_MESSAGE, type_name=M + "A")])
     # the resource a kept request refers to lives in the *other* file of the package and is reachable only through that reference
-    G.add_message(k, "Res", [G.F("name", 1, T.TYPE_STRING), G.F("d", 2, T.TYPE_MESSAGE, type_name=M + "D")], resource=("lab.example.com/Res", "things/{thing}"))
-    G.add_message(k, "D", [])
+    G.add_message(rs, "Res", [G.F("name", 1, T.TYPE_STRING), G.F("d", 2, T.TYPE_MESSAGE, type_name=M + "D")], resource=("lab.example.com/Res", "things/{thing}"))
+    G.add_message(rs, "D", [])
     G.add_message(fd, "Lonely", [G.F("e", 1, T.TYPE_MESSAGE, type_name=M + "E")])
     G.add_message(fd, "E", [])
     G.add_message(fd, "Meta", [])
@@ -41,7 +42,7 @@ def files():
     G.add_method(s1, "UseNested", M + "UseNestedReq", M + "UsesNested", http=("get", "/v1/{name=n/*}"))
     s2 = G.add_service(fd, "S2")
     G.add_method(s2, "Other", M + "OtherReq", M + "C", http=("get", "/v1/{name=o/*}"))
-    return [k, fd]
+    return [k, rs, fd]
 
 
 def expected_closure(fds, methods):
